@@ -5,6 +5,7 @@ import PypyrModel.Fmt
 import PypyrModel.FmtParse
 import PypyrModel.Format
 import PypyrModel.FormatSpec
+import PypyrModel.FormatSession
 
 namespace Pypyr.OpFormat
 open Lean (Json)
@@ -46,6 +47,51 @@ def pieceJson : Format.Piece → Json
   | .field n c s => Json.mkObj [("name", Json.str n), ("spec", Json.str s),
       ("conv", match c with | none => Json.null | some c => Json.str (String.singleton c))]
 
+
+/-- wire form of `PyW`: the wire form of `PyExpr` plus `{"w": [x, e]}` for `(x := e)` -/
+partial def pyWOfJson (j : Json) : Except String PyW := do
+  if let .ok n := j.getObjVal? "n" then
+    return .name (← n.getStr?)
+  if let .ok c := j.getObjVal? "c" then
+    return .const (← PyConst.ofJson c)
+  if let .ok a := j.getObjVal? "not" then
+    return .not (← pyWOfJson a)
+  if let .ok a := j.getObjVal? "len" then
+    return .len (← pyWOfJson a)
+  if let .ok ai := j.getObjVal? "idx" then
+    match ai with
+    | .arr #[a, i] => return .idx (← pyWOfJson a) (← pyWOfJson i)
+    | _ => throw "bad idx"
+  if let .ok w := j.getObjVal? "w" then
+    match w with
+    | .arr #[x, a] => return .walrus (← x.getStr?) (← pyWOfJson a)
+    | _ => throw "bad walrus"
+  if let .ok op := j.getObjVal? "op" then
+    let s ← op.getStr?
+    match PyOp.ofStr? s with
+    | some o =>
+      let a ← pyWOfJson (← j.getObjVal? "a")
+      let b ← pyWOfJson (← j.getObjVal? "b")
+      return .binop o a b
+    | none => throw s!"bad op {s}"
+  throw s!"bad py expr {j.compress}"
+
+/-- one call of a session: {"fmt": V} | {"pyw": E} | {"set": [k, V]} | {"del": k} | {"opaque": …} -/
+def callOfJson (j : Json) : Except String Call := do
+  if let .ok v := j.getObjVal? "fmt" then
+    return .fmt (← Val.ofJson v)
+  if let .ok e := j.getObjVal? "pyw" then
+    return .py (← pyWOfJson e)
+  if let .ok kv := j.getObjVal? "set" then
+    match kv with
+    | .arr #[k, v] => return .set (← k.getStr?) (← Val.ofJson v)
+    | _ => throw "bad set"
+  if let .ok k := j.getObjVal? "del" then
+    return .del (← k.getStr?)
+  if let .ok _ := j.getObjVal? "opaque" then
+    return .opaque
+  throw s!"bad call {j.compress}"
+
 /-- the documented result (`Spec.format`) of formatting the string `s` at top level -/
 def specFormat (fuel : Nat) (ctx : Ctx) (isRec : Bool) (s : String) : Except Exc Val :=
   match parseTuples s.toList with
@@ -64,7 +110,8 @@ def specFormat (fuel : Nat) (ctx : Ctx) (isRec : Bool) (s : String) : Except Exc
     `vformat` {ctx, s}        → base-class `Formatter.vformat(s, None, ctx)` (= `str.format_map` on the flat subset)
     `spec` {ctx, s, fuel?}    → `Spec.format` of a top-level string (the documented result)
     `both` {ctx, v, fuel?}    → basic model (`Pypyr.fmtVal`) and faithful model side by side
-    `attrs` {names}           → which attribute names are in the modelled domain -/
+    `attrs` {names}           → which attribute names are in the modelled domain
+    `session` {ctx, calls, fuel?} → `runCalls`: one entry per call, null for updates / opaque calls -/
 def handle (op : String) (j : Json) : Except String Json := do
   match op with
   | "fmt" =>
@@ -127,6 +174,14 @@ def handle (op : String) (j : Json) : Except String Json := do
       let s ← n.getStr?
       pure (Json.bool (attrInDomain s.toList))
     pure (Json.arr flags.toArray)
+  | "session" =>
+    let ctx ← Ctx.ofJson (← j.getObjVal? "ctx")
+    let calls ← (← (← j.getObjVal? "calls").getArr?).toList.mapM callOfJson
+    let steps ← (runCalls (fuelOf j) ctx calls).mapM fun r =>
+      match r with
+      | none => pure Json.null
+      | some x => excToResult Val.toJson x
+    pure (Json.mkObj [("steps", Json.arr steps.toArray)])
   | _ => .error s!"unknown op {op}"
 
 end Pypyr.OpFormat
